@@ -6,7 +6,9 @@ Import ListNotations.
 Local Open Scope Z_scope.
 Ltac Zify.zify_post_hook ::= Z.div_mod_to_equations.
 
-Definition FixedQ (q : quirks) : Prop := q_mul_ge q = true /\ q_copy_ensures q = true /\ q_copy_src q = true.
+(* the places of the code that were repaired are in their repaired form *)
+Definition FixedQ (q : quirks) : Prop :=
+  q_mul_ge q = true /\ q_copy_ensures q = true /\ q_copy_src q = true /\ q_copy_fwd q = true.
 
 (* both regimes are kept by a step from st to st1 *)
 Definition RegKeep (ok : os_ok) (st st1 : exf) : Prop := (Shared st -> Shared st1) /\ (MapAll ok -> Full st -> Full st1).
@@ -185,7 +187,7 @@ Lemma exfile_copy_spec : forall q ok st off siz noff rc st', FixedQ q -> Inv st 
   (spec_copy (psize st) ok (vabs st) off siz noff rc (vabs st') \/ spec_mapfail ok (vabs st) (mkOut rc 0 []) (vabs st')) /\
   Inv st' /\ Bud ok st' /\ RegKeep ok st st' /\ psize st' = psize st /\ maxoff st' = maxoff st.
 Proof.
-  intros q ok st off siz noff rc st' [Hq1 [Hq2 Hq3]] HI HB HR Hoff Hsiz Hnoff He1 He2 Hg E HK Hcc. pose proof LIM_val as EL.
+  intros q ok st off siz noff rc st' [Hq1 [Hq2 [Hq3 Hq4]]] HI HB HR Hoff Hsiz Hnoff He1 He2 Hg E HK Hcc. pose proof LIM_val as EL.
   pose proof (exfile_copy_fsize q ok st off siz noff rc st' E) as Hfs.
   unfold exfile_copy in E. rewrite Hq2 in Hfs. rewrite Hq2, Hq3 in E. rewrite sw_small in E, Hfs by lia. rewrite !uw_small in E by lia.
   destruct (ensure_size_lw q ok st (noff + siz)) as [rc0 st0] eqn:Ee. simpl in Hfs. rewrite Hfs in HK.
@@ -201,16 +203,14 @@ Proof.
   pose proof (PsOk_pos _ (inv_ps st0 I0)) as Hps0. destruct (view_spec st0 I0) as [L0 X0].
   (* what has to be shown about the answer and the final state once the size is in order *)
   set (G := fun (rc : Z) (st' : exf) =>
-    ((rc = 0 /\ view st' = splice (view st0) noff (pread (view st0) off siz) /\ maxoff st' = maxoff st0 /\ pol st' = pol st0) \/
-     (rc = EXF_E_OVERFLOW /\ off < noff < off + siz /\ view st' = view st0 /\ maxoff st' = maxoff st0 /\ pol st' = pol st0)) /\
+    (rc = 0 /\ view st' = splice (view st0) noff (pread (view st0) off siz) /\ maxoff st' = maxoff st0 /\ pol st' = pol st0) /\
     Inv st' /\ Bud ok st' /\ RegKeep ok st0 st' /\ psize st' = psize st0 /\ map erase (slots st') = map erase (slots st0)).
   assert (HG : G rc st' -> (spec_copy (psize st) ok (vabs st) off siz noff rc (vabs st') \/ spec_mapfail ok (vabs st) (mkOut rc 0 []) (vabs st')) /\
                 Inv st' /\ Bud ok st' /\ RegKeep ok st st' /\ psize st' = psize st /\ maxoff st' = maxoff st).
   { intros [Hres [I' [B' [R' [P' _]]]]]. split; [left | split; [exact I' | split; [exact B' | split; [exact (RegKeep_trans _ _ _ _ R0 R') | split; [congruence |]]]]].
-    - unfold spec_copy. rewrite S0. simpl. destruct Hres as [[-> [Hv [Hm Hp]]] | [-> [Hov [Hv [Hm Hp]]]]].
-      + left. split; [reflexivity |]. unfold vabs. rewrite Hv, Hm, Hp. reflexivity.
-      + right. split; [reflexivity |]. split; [exact Hov |]. unfold vabs. rewrite Hv, Hm, Hp. reflexivity.
-    - destruct Hres as [[_ [_ [Hm _]]] | [_ [_ [_ [Hm _]]]]]; congruence. }
+    - unfold spec_copy. rewrite S0. simpl. destruct Hres as [-> [Hv [Hm Hp]]].
+      split; [reflexivity |]. unfold vabs. rewrite Hv, Hm, Hp. reflexivity.
+    - destruct Hres as [_ [_ [Hm _]]]. congruence. }
   apply HG. clear HG.
   (* neither range touches a mapped private window *)
   set (D2 := forall s, In s (slots st0) -> s_priv s = true -> 0 < s_len s ->
@@ -230,19 +230,18 @@ Proof.
   (* the path through the file *)
   assert (Hfile : forall rcf stf, (let '(rc, f') := file_copy q (file st0) off siz noff in (rc, set_file st0 f')) = (rcf, stf) -> D2 -> G rcf stf).
   { intros rcf stf Ef HD. destruct (file_copy q (file st0) off siz noff) as [rc1 f1] eqn:Efc. inversion Ef; subst rcf stf. clear Ef.
-    destruct (file_copy_spec q (file st0) off siz noff rc1 f1 Hoff Hnoff Hsiz ltac:(lia) Efc) as [[-> ->] | [-> [-> Hfw]]].
-    - assert (Esrc : pread (view st0) off siz = pread (file st0) off siz).
+    destruct (file_copy_fixed q (file st0) off siz noff rc1 f1 Hq4 Hoff Hnoff Hsiz ltac:(lia) Efc) as [-> ->].
+    + assert (Esrc : pread (view st0) off siz = pread (file st0) off siz).
       { apply pread_ext_gen; try lia. intros x Hx Hxl. rewrite X0 by lia. apply V_outside.
         intros s Hin Hp Hpos. destruct (HD s Hin Hp Hpos) as [[Hd | Hd] _]; lia. }
       pose proof (zlen_pread_le (file st0) off siz Hsiz) as Hdl.
       destruct (Hwr (pread (file st0) off siz) (slots st0) Hdl eq_refl HS0) as [Hv I'].
-      + intros s Hin Hp Hpos. destruct (HD s Hin Hp Hpos) as [_ [Hd | Hd]]; lia.
-      + intros; reflexivity.
-      + unfold G. change (set_file st0 (splice (file st0) noff (pread (file st0) off siz)))
+      * intros s Hin Hp Hpos. destruct (HD s Hin Hp Hpos) as [_ [Hd | Hd]]; lia.
+      * intros; reflexivity.
+      * unfold G. change (set_file st0 (splice (file st0) noff (pread (file st0) off siz)))
           with (set_fs st0 (splice (file st0) noff (pread (file st0) off siz)) (slots st0)).
-        split; [left; split; [reflexivity |]; split; [rewrite Esrc; exact Hv | split; reflexivity] |].
-        split; [exact I' |]. split; [exact B0 |]. split; [apply RegKeep_set_fs |]. split; reflexivity.
-    - unfold G. rewrite set_file_same. split; [right; auto 6 |]. split; [exact I0 |]. split; [exact B0 |]. split; [apply RegKeep_refl | auto]. }
+        split; [split; [reflexivity |]; split; [rewrite Esrc; exact Hv | split; reflexivity] |].
+        split; [exact I' |]. split; [exact B0 |]. split; [apply RegKeep_set_fs |]. split; reflexivity. }
   assert (HD2 : Shared st0 -> D2).
   { intros HSh s Hin Hp. unfold Shared, SharedL in HSh. rewrite Forall_forall in HSh. rewrite (HSh s Hin) in Hp. discriminate Hp. }
   assert (HShared0 : Shared st -> Shared st0) by exact (proj1 R0).
@@ -283,7 +282,7 @@ Proof.
     { change (s' :: tl) with (set_nth 0 s' (s :: tl)). rewrite <- Ess. eapply set_nth_inv; eauto. }
     assert (I' : Inv (set_fs st0 (file st0) (s' :: tl))) by (apply set_fs_inv; auto).
     unfold G. split.
-    + left. split; [reflexivity |]. split; [| split; reflexivity].
+    + split; [reflexivity |]. split; [| split; reflexivity].
       destruct (view_spec _ I') as [L2 X2]. simpl in L2, X2. apply list_eq_znth.
       * rewrite L2, zlen_splice; rewrite ?zlen_pread; lia.
       * intros x Hx. rewrite X2 by lia. unfold V. change (s' :: tl) with (set_nth 0 s' (s :: tl)). rewrite <- Ess.
@@ -314,6 +313,6 @@ Proof.
     + intros t Hin Hpt Hpos. rewrite Hbl.
       exact (shared_range_clear (psize st0) (fsize st0) (slots st0) 0%nat s HS0 Hn0 Ep noff siz ltac:(lia) ltac:(lia) t Hin Hpt Hpos).
     + intros; reflexivity.
-    + unfold G. split; [left; split; [reflexivity |]; split; [rewrite Esrc; exact Hv | split; reflexivity] |].
+    + unfold G. split; [split; [reflexivity |]; split; [rewrite Esrc; exact Hv | split; reflexivity] |].
       split; [exact I' |]. split; [exact B0 |]. split; [apply RegKeep_set_fs |]. split; reflexivity.
 Qed.
